@@ -8,8 +8,9 @@
 (*                    Print(Parse(Print(t))) = Print(t) on the spec, then  *)
 (*                    the same values through the public constructors,     *)
 (*                    Display and try_parse.                               *)
-(*  Mode "text"       all texts of <= MaxLines lines over a 16 shape line  *)
-(*                    alphabet x {3-class mapping, empty mapping}: the     *)
+(*  Mode "text"       all texts of <= MaxLines lines over a 21 shape line  *)
+(*                    alphabet (from the third line on: a 9 shape subset)  *)
+(*                    x {3-class mapping, empty mapping}: the              *)
 (*                    line machine's output, the one-group-per-line and    *)
 (*                    identity-under-empty-mapping laws.                   *)
 (*  Mode "typed"      typed traces: depth <= MaxDepth, <= 2 frames per     *)
@@ -82,6 +83,11 @@ TextLines ==
    <<>>,                                       \* blank line
    B("message says at a.m(SourceFile:2) here"),\* frame look-alike inside free text
    B("free text ") \o E}
+\* from the third line on: the lines that interact with what came before (levels, frames, respelled frames, blanks)
+TextLinesTail ==
+  {B("a: boom"), B("Caused by: a: inner"), B("    at a.n(SourceFile:4)"), B("    at a.m(SourceFile:9)"),
+   B("  at a.m(SourceFile:9)"), B("    at zz.Unknown.f(X.java:1)"), <<9>> \o B("at zz.Unknown.f(X.java:1)"),
+   B("    ... 3 more"), <<>>}
 LineTerms == IF Rich THEN {<<10>>, <<13, 10>>} ELSE {<<10>>}
 
 \* ---- mode "typed" ------------------------------------------------------------------------------------
@@ -96,7 +102,7 @@ TyFrames == {F(B("a"), B("m"), D(2), B("SourceFile")),     \* -> 1
 TyFrameSeqs == {<<>>} \cup {<<f>> : f \in TyFrames} \cup {<<f, g>> : f, g \in TyFrames}
                \cup {<<f, f, f>> : f \in TyFrames} \cup {<<f, f, f, f>> : f \in TyFrames}
 TyLevel1 == {Lv(e, fs) : e \in {<<>>} \cup {<<t>> : t \in TyThrowables}, fs \in TyFrameSeqs}
-TyLevelN == {Lv(<<t>>, fs) : t \in TyThrowables, fs \in {<<>>, <<F(B("a"), B("n"), D(4), B("SourceFile"))>>, <<F(B("zz.U"), B("f"), D(1), B("X.java"))>>,
+TyLevelN == {Lv(<<t>>, fs) : t \in (IF Rich THEN TyThrowables ELSE {T(B("a"), <<B("boom")>>), T(B("zz.U"), <<B("x: y")>>)}), fs \in {<<>>, <<F(B("a"), B("n"), D(4), B("SourceFile"))>>, <<F(B("zz.U"), B("f"), D(1), B("X.java"))>>,
                                                    <<F(B("a"), B("m"), D(2), B("SourceFile")), F(B("a"), B("m"), D(2), B("SourceFile")),
                                                      F(B("a"), B("m"), D(2), B("SourceFile"))>>}}
 
@@ -110,7 +116,7 @@ Init ==
   \/ Mode = "typed" /\ n = 1 /\ x \in {<<l>> : l \in TyLevel1}
 Next ==
   \/ Mode = "roundtrip" /\ n < MaxDepth + 1 /\ \E l \in RtLevelN : x' = Append(x, l) /\ n' = n + 1
-  \/ Mode = "text" /\ n < MaxLines /\ \E l \in TextLines, t \in LineTerms : x' = Append(x, l \o t) /\ n' = n + 1
+  \/ Mode = "text" /\ n < MaxLines /\ \E l \in (IF n < 2 \/ Rich THEN TextLines ELSE TextLinesTail), t \in LineTerms : x' = Append(x, l \o t) /\ n' = n + 1
   \/ Mode = "typed" /\ n < MaxDepth + 1 /\ \E l \in TyLevelN : x' = Append(x, l) /\ n' = n + 1
 Spec == Init /\ [][Next]_vars
 
